@@ -6,6 +6,7 @@
 package main
 
 import (
+	"regexp"
 	"encoding/json"
 	"flag"
 	"fmt"
@@ -311,7 +312,7 @@ func partText(tier, goose, work string, acc *ev.Acc, only *Text) {
 
 // Go identifiers that are reserved words or notation keywords on the Coq side, at every place an identifier is declared.
 var coqWords = []string{"in", "then", "fun", "match", "end", "with", "let", "fix", "forall", "exists", "as", "at", "using", "where", "mod", "Type", "Prop", "Set",
-	"rec", "val", "expr", "Definition", "Section", "Fork", "Skip", "Panic", "ref", "slice", "lock", "not", "neutral"}
+	"rec", "val", "expr", "ty", "λ", "Definition", "Section", "Fork", "Skip", "Panic", "ref", "slice", "lock", "not", "neutral"}
 
 func identSource(pos, n string) string {
 	switch pos {
@@ -329,6 +330,8 @@ func identSource(pos, n string) string {
 		return "package q\n\ntype T struct {\n\t" + n + " uint64\n}\n\nfunc G() uint64 {\n\tt := T{" + n + ": 1}\n\treturn t." + n + "\n}\n"
 	case "param":
 		return "package q\n\nfunc F(" + n + " uint64) uint64 {\n\treturn " + n + " + 1\n}\n\nfunc G() uint64 {\n\treturn F(2)\n}\n"
+	case "typeparam":
+		return "package q\n\nfunc F[" + n + " any](x " + n + ", y " + n + ") " + n + " {\n\treturn x\n}\n\nfunc G() uint64 {\n\treturn F[uint64](2, 3)\n}\n"
 	case "local":
 		return "package q\n\nfunc G(x uint64) uint64 {\n\t" + n + " := x + 1\n\treturn " + n + " * 2\n}\n"
 	case "localvar":
@@ -337,10 +340,12 @@ func identSource(pos, n string) string {
 	return ""
 }
 
+var typeParamHeader = regexp.MustCompile(`Definition F \((\S+):ty\)[^\n]*: (\S+) :=`)
+
 func partIdents(goose, work string, acc *ev.Acc) {
 	mod := filepath.Join(work, "modi")
 	writeFile(mod, "go.mod", "module c05ids\n\ngo 1.22\n")
-	positions := []string{"funcname", "typename", "constname", "globalname", "methodname", "fieldname", "param", "local", "localvar"}
+	positions := []string{"funcname", "typename", "constname", "globalname", "methodname", "fieldname", "param", "local", "localvar", "typeparam"}
 	type item struct{ pos, name, pkg string }
 	var items []item
 	id := 0
@@ -401,6 +406,11 @@ func partIdents(goose, work string, acc *ev.Acc) {
 			}
 			if len(f.Bad) > 0 {
 				viol("parse", "a sentence of the emitted file does not parse: "+f.Bad[0].Err)
+				continue
+			}
+			// a type parameter is a Gallina binder of the definition: it must not capture a word of the rest of the header
+			if m := typeParamHeader.FindStringSubmatch(string(b)); m != nil && it.pos == "typeparam" && m[1] == m[2] {
+				viol("capture", fmt.Sprintf("the binder (%s:ty) captures the annotation \": %s\" of the same definition", m[1], m[2]))
 				continue
 			}
 			want := strings.ReplaceAll(neutralOrder[it.pos], "neutral", it.name)
@@ -601,7 +611,7 @@ func main() {
 	os.RemoveAll(work)
 	os.Exit(acc.Done(ev.Finish{
 		Prop: "C05", Tier: *tier, Level: "exploration", Start: start,
-		Rule:        "(a) every string of <=2 (thorough <=3) tokens over {(*, *), (, *, ), \", newline, space, x, é} plus %, %d, %s, %!, tab, backslash, ', CR alone, doubled and next to \", (*, x, space at 24 text positions (a string literal in a one-line if-branch and as a call argument, a log call as the last statement of an if-branch / else-branch / range body / goroutine / closure / whole function, package / function / struct / constant doc comments, trailing constant comment, interpreted and raw string literals, string constants, a concatenation operand, panic message as a literal / a named constant / a constant concatenation, log.Printf with interpreted, raw and constant strings, fmt.Println), one package each, translated by the real goose; the file must lex under Coq's rules (nested comments, strings inside comments), Coq must see the same sentence list as with neutral text, and every body must equal the neutral body up to the literal itself (a rejected package is acceptable). (b) every parent/child/side nesting of the 10 arithmetic, 6 comparison and 2 boolean operators plus unary, call-argument, index, deref, field, conversion, store, condition, struct-literal, slice-bound, tuple and append contexts (thorough: + depth 3 over 5 non-associative operators), at two statement positions, read with Coq's precedences and interpreted: the value must equal Go's on 28 input vectors. (d) 30 Go identifiers that are Gallina reserved words or GooseLang notation / prelude names (in, then, fun, match, end, let, fix, forall, Type, rec, val, expr, Definition, Fork ...) at nine declaration positions (function, type, constant, global, method, field, parameter, := local, var local): rejected, or the file parses and defines what it defines with a harmless name. (c) a fixture with an interface conversion, comments and constants needed at three call sites, comments and constants under all 8 flag combinations: the same list of definitions (names, order, multiplicity) with identical bodies",
+		Rule:        "(a) every string of <=2 (thorough <=3) tokens over {(*, *), (, *, ), \", newline, space, x, é} plus %, %d, %s, %!, tab, backslash, ', CR alone, doubled and next to \", (*, x, space at 24 text positions (a string literal in a one-line if-branch and as a call argument, a log call as the last statement of an if-branch / else-branch / range body / goroutine / closure / whole function, package / function / struct / constant doc comments, trailing constant comment, interpreted and raw string literals, string constants, a concatenation operand, panic message as a literal / a named constant / a constant concatenation, log.Printf with interpreted, raw and constant strings, fmt.Println), one package each, translated by the real goose; the file must lex under Coq's rules (nested comments, strings inside comments), Coq must see the same sentence list as with neutral text, and every body must equal the neutral body up to the literal itself (a rejected package is acceptable). (b) every parent/child/side nesting of the 10 arithmetic, 6 comparison and 2 boolean operators plus unary, call-argument, index, deref, field, conversion, store, condition, struct-literal, slice-bound, tuple and append contexts (thorough: + depth 3 over 5 non-associative operators), at two statement positions, read with Coq's precedences and interpreted: the value must equal Go's on 28 input vectors. (d) 32 Go identifiers that are Gallina reserved words or GooseLang notation / prelude names (in, then, fun, match, end, let, fix, forall, Type, rec, val, expr, Definition, Fork ...) at ten declaration positions (function, type, constant, global, method, field, parameter, := local, var local, type parameter): rejected, or the file parses and defines what it defines with a harmless name. (c) a fixture with an interface conversion, comments and constants needed at three call sites, comments and constants under all 8 flag combinations: the same list of definitions (names, order, multiplicity) with identical bodies",
 		Assumptions: []string{"Coq's lexer and the levels of the GooseLang notations are modelled by mc/gl (standard levels for * + = < && || ~, level 35 for the backquoted infixes and shifts)", "nesting is judged by value on boundary inputs, not by tree isomorphism with the translator's internal tree"},
 		Extra:       map[string]any{"distinct_nontrivial": len(acc.Sets["nontrivial"])},
 	}))
